@@ -280,3 +280,8 @@ SUBS.append(reuse.sub(ID, quick=2000, thorough=20000, names=reuse.names_of("C05"
     n for n in reuse.names_of("C13") if n.startswith(("selectlt", "selectle", "selectgt", "selectge", "selectrange"))
 ] + [n for n in reuse.names_of("C06") if "cross" not in n and "unjoin" not in n]))
 RULE += reuse.RULE
+
+# the method interface reaches the same functions (shared exhaustive sub-check, see pv/fluent.py)
+from pv import fluent  # noqa: E402
+SUBS.append(fluent.sub(ID))
+RULE += fluent.RULE
